@@ -249,6 +249,15 @@ func parseCert(in []byte, privAlgo string) (*Certificate, error) {
 		return nil, errors.New("ssh: signature parse error")
 	}
 
+	// The CA signature is verified over the re-encoded certificate (see
+	// bytesForSigning), so only accept an encoding that re-encodes to itself:
+	// otherwise the bytes that were signed and the bytes that were received
+	// could differ (e.g. redundant leading bytes in an mpint, or an option
+	// value that is an empty string inside a non-empty field).
+	if _, body, ok := parseString(c.Marshal()); !ok || !bytes.Equal(body, in) {
+		return nil, errors.New("ssh: certificate is not canonically encoded")
+	}
+
 	return c, nil
 }
 
